@@ -41,7 +41,8 @@ Import ListNotations. Open Scope string_scope. Open Scope N_scope.
 Definition k (kd : tkind) (s : string) := Tok kd (u s).
 """
 
-FLAGS = ["neg_eq", "neg_order", "neg_set", "neg_like", "neg_regex", "neg_subset", "neg_superset", "within_float"]
+FLAGS = ["neg_eq", "neg_order", "neg_set", "neg_like", "neg_regex", "neg_subset", "neg_superset", "within_float",
+         "float_pos", "key_quote", "hex_empty", "rt_append", "star_quoted"]     # order = fields of PatternSyntax.cfg
 # flag -> (finding id when the code matches the defective variant, witness text, witness tree)
 _pa = ["path", ["IdentifierWithoutHyphen", "a"], ["IdentifierWithoutHyphen", "b"], []]
 _one = ["IntPosLiteral", "1"]
@@ -57,31 +58,32 @@ WITNESS = {
 }
 WITNESS_TREE = {f: G.simple(pt) for f, (_, pt) in WITNESS.items()}
 WITNESS_TREE["within_float"] = [[[["qual", ["simple", [[["eq", _pa, False, ["EQ", "="], _one]]]], ["within", ["FloatPosLiteral", "5.5"]]]]]]
-FLAG_FINDING = {f: w[0] for f, w in WITNESS.items()}
-FLAG_FINDING["within_float"] = "C10-within-float-valueerror"
-# defect classes without a variant: (finding id, witness tree)
 _eq1 = lambda pa: G.simple(["eq", pa, False, ["EQ", "="], _one])     # noqa: E731
 _lit = lambda t: G.simple(["eq", _pa, False, ["EQ", "="], t])        # noqa: E731
 _pk = lambda steps: ["path", ["IdentifierWithoutHyphen", "a"], ["IdentifierWithoutHyphen", "b"], steps]   # noqa: E731
+_rt_stale = [[[["simple", [[["paren", [[["eq", ["path", ["IdentifierWithoutHyphen", t], ["IdentifierWithoutHyphen", "b"], []], False,
+                                          ["EQ", "="], _one]] for t in ("x", "y", "a")]],
+                            ["eq", _pa, False, ["EQ", "="], _one]]]]]]]
+WITNESS_TREE["float_pos"] = _lit(["FloatPosLiteral", "0.00001"])
+WITNESS_TREE["key_quote"] = _eq1(_pk([["key", ["StringLiteral", "'a b'"]]]))
+WITNESS_TREE["hex_empty"] = _lit(["HexLiteral", "h''"])
+WITNESS_TREE["rt_append"] = _rt_stale
+WITNESS_TREE["star_quoted"] = _eq1(_pk([["key", ["StringLiteral", "'a-b'"]], ["idx", ["ASTERISK", "*"]]]))
+FLAG_FINDING = {f: w[0] for f, w in WITNESS.items()}
+FLAG_FINDING.update({"within_float": "C10-within-float-valueerror", "float_pos": "C10-float-exponent-notation",
+                     "key_quote": "C10-quoted-key-printed-unquoted", "hex_empty": "C10-empty-hex-valueerror",
+                     "rt_append": "C10-chain-root-types-stale", "star_quoted": "C10-quoted-key-star-attributeerror"})
+# defect classes without a variant, and further witnesses of the others: (finding id, witness tree)
 FIXED_WITNESS = [
     ("C10-exists-unhandled", G.simple(["exists", False, _pa])),
     ("C10-exists-unhandled", G.simple(["exists", True, _pa])),
-    ("C10-float-exponent-notation", _lit(["FloatPosLiteral", "0.00001"])),
     ("C10-float-exponent-notation", _lit(["FloatPosLiteral", "10000000000000000.0"])),
-    ("C10-quoted-key-printed-unquoted", _eq1(_pk([["key", ["StringLiteral", "'a b'"]]]))),
     ("C10-quoted-key-printed-unquoted", _eq1(_pk([["key", ["StringLiteral", "'it\\'s'"]]]))),
-    ("C10-quoted-key-star-attributeerror", _eq1(_pk([["key", ["StringLiteral", "'a-b'"]], ["idx", ["ASTERISK", "*"]]]))),
+    ("C10-quoted-key-printed-unquoted", _eq1(_pk([["key", ["StringLiteral", "'AND'"]]]))),
     ("C10-index-after-index-attributeerror", _eq1(_pk([["idx", ["IntPosLiteral", "1"]], ["idx", ["IntPosLiteral", "2"]]]))),
-    ("C10-empty-hex-valueerror", _lit(["HexLiteral", "h''"])),
     ("C10-timestamp-unrepresentable", _lit(["TimestampLiteral", "t'2020-01-01T00:00:00.1234567Z'"])),
     ("C10-timestamp-unrepresentable", _lit(["TimestampLiteral", "t'2016-12-31T23:59:60Z'"])),
     ("C10-year-below-1000", _lit(["TimestampLiteral", "t'0999-01-02T03:04:05Z'"])),
-    ("C10-chain-root-types-stale",
-     G.simple(["paren", [[["eq", ["path", ["IdentifierWithoutHyphen", t], ["IdentifierWithoutHyphen", "b"], []], False, ["EQ", "="], _one]]
-                         for t in ("x", "y", "a")]])[:0] or
-     [[[["simple", [[["paren", [[["eq", ["path", ["IdentifierWithoutHyphen", t], ["IdentifierWithoutHyphen", "b"], []], False,
-                                  ["EQ", "="], _one]] for t in ("x", "y", "a")]],
-                     ["eq", _pa, False, ["EQ", "="], _one]]]]]]]),
 ]
 
 
@@ -142,6 +144,9 @@ def norm_ast(s):
     return s
 
 
+CURRENT = {"cfg": None}      # the variant selected for this run
+
+
 def compare_parse(c, r, line, mode=Full):
     """list of (field, impl, model) differences"""
     m = line.split("\t")
@@ -171,7 +176,8 @@ def compare_parse(c, r, line, mode=Full):
         d.append(("str()", r.get("str"), text))
     if not eq(m_ast, r.get("m_ast")):
         d.append(("meaning of the object", r.get("m_ast"), m_ast))
-    if r.get("valid_out") and "C10-quoted-key-printed-unquoted" not in fs:
+    key_quote = (CURRENT["cfg"] or {}).get("key_quote", False)
+    if r.get("valid_out") and (key_quote or "C10-quoted-key-printed-unquoted" not in fs):
         if not eq(toks, r.get("toks")):
             d.append(("tokens of str()", r.get("toks"), toks))
         # the model's unvisit gives a tree with the printed tokens that the visitor maps back to the object
@@ -404,6 +410,47 @@ def attribute(run, cases, results, problems_of, label):
     return by_class
 
 
+def problem_kind(p):
+    """the kind of an oracle failure (what must stay the same while an input is shrunk)"""
+    return p[0].split(":")[0].split(" -- ")[0][:40] if p else None
+
+
+def shrink(v, rounds=12, width=60):
+    """Greedy shrinking of the input of a Violation: keep a smaller tree / object as long as the
+    oracle fails on it in the same way and with the same attribution features."""
+    c = v.replay.get("case")
+    if not c or c.get("kind") not in ("parse", "prog"):
+        return v
+    kind = problem_kind(v.replay.get("problems"))
+    feats = G.features(c["cst"]) if c["kind"] == "parse" else G.prog_features(c["spec"])
+    cur, curp = c, v.replay.get("problems")
+    for _ in range(rounds):
+        if cur["kind"] == "parse":
+            cands = [parse_case(t, version=cur.get("version", "2.1")) for t in G.shrink_candidates(cur["cst"])]
+            cands = [x for x in cands if G.features(x["cst"]) <= feats and G.in_scope(x["cst"])]
+        else:
+            cands = [{"kind": "prog", "spec": sp, "wg": cur.get("wg"), "version": cur.get("version", "2.1")}
+                     for sp in G.shrink_candidates_prog(cur["spec"]) if G.prog_features(sp) <= feats]
+        cands.sort(key=lambda x: len(json.dumps(x.get("cst", x.get("spec")))))
+        cands = cands[:width]
+        if not cands:
+            break
+        res = common.run_impl("c10_impl", cands, procs=1)
+        nxt = None
+        for x, r in zip(cands, res):
+            p = oracle_parse(x, r) if x["kind"] == "parse" else oracle_prog(x, r)
+            if p and problem_kind(p) == kind:
+                nxt, nxtp = x, p
+                break
+        if nxt is None:
+            break
+        cur, curp = nxt, nxtp
+    if cur is not c:
+        what = "%s: %s -- %s" % (v.what.split(":")[0], json.dumps(cur.get("text", cur.get("spec")))[:300], curp[0])
+        return Violation(what, {"case": cur, "problems": curp, "shrunk_from": c.get("text", c.get("spec"))}, finding=v.finding)
+    return v
+
+
 def check(run):
     thorough = run.tier == "thorough"
     n_random = 12000 if thorough else 1000
@@ -434,6 +481,7 @@ def check(run):
         run.broken.append(Broken("correspondence", "model evaluation failed (variant selection)", {"error": str(e)[-1500:]}))
         cfg = {f: True for f in FLAGS}
 
+    CURRENT["cfg"] = cfg
     rng = run.rng
     # ---- cases
     cases = []
@@ -515,8 +563,13 @@ def check(run):
     problems20 = [oracle_parse(c, r) for c, r in zip(cases20, impl20)]
     by_class20 = attribute(run, cases20, impl20, problems20, "pattern (2.0 grammar)")
     run.coverage["oracle_failures_by_class_2_0"] = by_class20
-    # smallest failing input first (the first five distinct ones are printed)
-    run.violations.sort(key=lambda v: len(json.dumps(v.replay.get("case", {}).get("text") or v.replay.get("case", {}).get("spec") or "")))
+    size = lambda v: len(json.dumps(v.replay.get("case", {}).get("text") or v.replay.get("case", {}).get("spec") or ""))   # noqa: E731
+    # smallest failing input first; the unclassified ones that will be printed are shrunk
+    run.violations.sort(key=size)
+    unl = [v for v in run.violations if v.finding is None][:5]
+    shrunk = {id(v): shrink(v) for v in unl}
+    run.violations = [shrunk.get(id(v), v) for v in run.violations]
+    run.violations.sort(key=size)
     run.coverage["oracle_failures_by_class"] = by_class
     # variant flags: the witness of a defective flag must have been reported
     for f in FLAGS:
